@@ -196,6 +196,8 @@ func (p *path) call(caller *frame, fn value, args []value, site *ssa.CallCommon)
 		return p.callBuiltin(caller, fn, args, site)
 	case hostFunc:
 		return fn.call(p, args)
+	case *onceFn:
+		return p.callOnce(caller, fn)
 	}
 	p.unsupported(fmt.Sprintf("call of %T", fn))
 	return nil
